@@ -23,6 +23,41 @@ KNOWN = os.path.join(VERIF, "known_findings.json")
 from props import PROPS
 
 
+# properties for which replay/src/oracle.rs has an executable specification + enumerator (bounded refutation search)
+SEARCHABLE = {"C02": "all valid references over {a : / ? # @} up to 6 bytes (both families)",
+              "C03": "all valid authorities over {a : @ [ ] 1} up to 6 bytes (both families)",
+              "C20": "the C02, C03 and C12 enumerations (placement of the returned slices inside the input)",
+              "C12": "all valid paths over {a / .} up to 7 bytes (forward, backward and alternating iteration, path queries)",
+              "C09": "all valid paths over {a / .} up to 7 bytes (normalized segment sequence only)",
+              "C07": "all pairs from ~450 short references (alphabet {a / . : ? #} up to 4 bytes + 29 hand-picked with ports, IP literals, percent-escapes), ~150 paths, ~60 authorities, 7 hosts; inputs whose percent-decoding is not UTF-8 are skipped (C19 finding)",
+              "C08": "same pairs as C07: == vs cmp == Equal, antisymmetry, hasher feeds of equal values and of the views of one value (recording hasher)",
+              "C13": "all IRI references over {a : / ? #} up to 5 bytes + 5 non-ASCII texts: outcome and text of 20 conversions",
+              "C16": "all URIs over {a : / ? #} up to 6 bytes (base) and all pairs of paths over {a / .} up to 5 bytes (suffix)"}
+
+
+def refutation_search(pid):
+    """bounded search for a concrete input on which the REAL crate of the current tree disagrees with the executable
+    specification. Returns (list of findings, error string or None)."""
+    import shutil
+    s_ = engine.scratch_root()
+    try:
+        engine.copy_repo(s_)
+        b_ = engine.build_replay(s_)
+        rc, so, se = engine.replay(b_, "search", pid, timeout=600)
+        out = []
+        for line in so.split("\n"):
+            line = line.strip()
+            if line.startswith("{"):
+                d = json.loads(line)
+                if not d.get("none"):
+                    out.append(d)
+        return out, None
+    except Exception as e:
+        return [], str(e)[-300:]
+    finally:
+        shutil.rmtree(s_, ignore_errors=True)
+
+
 def load_known():
     if not os.path.exists(KNOWN):
         return {"findings": [], "fixed": []}
@@ -76,6 +111,12 @@ def do_replay(pid, path):
                     rc, so, se = engine.replay(b, "new", i["family"], i["type"], i["text_hex"])
                     bad = (so == "accept") != bool(i["rfc_language"])
                     print("REPLAY %s: %s::%s::new(%r) -> %s ; RFC language says %s => %s" % (v["obligation"], i["family"], i["type"], i["text"], so or se, "accept" if i["rfc_language"] else "reject", "STILL FAILS" if bad else "now agrees"))
+                    still += bad
+                elif i.get("op") == "search":
+                    rc, so, se = engine.replay(b, "search", i["prop"], timeout=600)
+                    found = [json.loads(l) for l in so.split("\n") if l.strip().startswith("{") and '"none"' not in l]
+                    bad = len(found) > 0
+                    print("REPLAY %s: bounded search on the real crate -> %s => %s" % (v["obligation"], (found[0]["what"] + " on " + ", ".join(repr(x) for x in found[0]["inputs_text"])) if found else "no discrepancy", "STILL FAILS" if bad else "now agrees"))
                     still += bad
                 elif i.get("op") == "cmd":
                     rc, so, se = engine.replay(b, *i["args"])
@@ -163,6 +204,16 @@ def main():
             known_hits.append((hit, v))
         else:
             real.append(v)
+    # bounded refutation search on the real code: only after a failed or undecided obligation (to obtain a concrete failing
+    # input), or as extra exploration in the thorough tier. A discrepancy is a refutation with a replayable input; finding
+    # none changes nothing (an undecided run stays undecided).
+    search_info = None
+    if pid in SEARCHABLE and (real or undecided or a.tier == "thorough"):
+        found, err = refutation_search(pid)
+        search_info = {"ran": True, "bounded": True, "bound": SEARCHABLE[pid], "why": "failed obligation" if real else ("undecided obligation" if undecided else "thorough tier"), "discrepancies": len(found), "error": err}
+        for d in found:
+            real.append({"obligation": "refutation-search::" + d["what"], "message": "the real crate returns %s, the specification demands %s" % (d["real"], d["expected"]), "kind": "bounded-search",
+                         "function": None, "verifier_output": "", "input": {"op": "search", "prop": pid, "inputs_hex": d["inputs_hex"], "inputs_text": d["inputs_text"], "real": d["real"], "expected": d["expected"]}})
     # a listed finding that no longer fails is just reported as such (not an alarm)
     for k, v in known_hits:
         if k.get("replay"):
@@ -194,6 +245,8 @@ def main():
             cov["obligations_note"] = "bounded: CBMC property checks of the harnesses, valid up to the bounds listed in bounded_harnesses; not a proof"
     if cfg.get("explanation"):
         cov["explanation"] = cfg["explanation"]
+    if search_info:
+        cov["refutation_search"] = search_info
     cov["known_findings_reported"] = [k["obligation"] for k, _ in known_hits]
     cov["undecided"] = [u.get("what") for u in undecided]
     evidence["coverage"] = cov
